@@ -227,6 +227,13 @@ class Sym(object):
 
     # -- comparisons ---------------------------------------------------
     def _cmp(self, o, f):
+        if isinstance(o, (list, tuple)):
+            # `[t0, t1] >= x0` in the code under test: numpy scalars broadcast
+            # over the sequence; do the same element-wise
+            r = _np.empty(len(o), dtype=object)
+            for i, e in enumerate(o):
+                r[i] = self._cmp(e, f)
+            return r
         if not _num(o):
             return NotImplemented
         b = tz(o)
@@ -405,9 +412,13 @@ class Engine(object):
         self.path_records = []   # for trace validation: (model inputs, observed)
         self.keep_records = 0
         self.exceptions = 0
+        self.failed_obligations = 0
         self._known_seen = set()
         self.known = []          # known-finding entries for this property/config
         self.max_cex = None
+        self.split_forks = None   # stop at the k-th genuine fork and emit shards
+        self.shards = []
+        self.cex_per_tag = {}
         self.batch_timeout_ms = 300
         self._reset_path()
 
@@ -425,6 +436,9 @@ class Engine(object):
         self.side = []          # side conditions (sqrt), asserted as assumptions
         self._sqrt_cache = {}
         self.path_div0 = 0
+        self.p_obl = 0
+        self.p_dis = 0
+        self.p_triv = 0
 
     def note_divzero(self):
         self.divzero += 1
@@ -527,7 +541,11 @@ class Engine(object):
         if rt == z3.unknown or rf == z3.unknown:
             raise Inconclusive("unknown in branch: %s" % c)
         if rt == z3.sat and rf == z3.sat:
-            self.work.append(self.trace + [False])
+            if self.split_forks is not None and self.nforks >= self.split_forks:
+                self.shards.append((list(self.trace), self.nforks))
+                raise PathAbort()
+            self.nforks += 1
+            self.work.append((self.trace + [False], self.nforks))
             v = True
             if guess is False:
                 self.model = model_other
@@ -607,11 +625,11 @@ class Engine(object):
         at once (and returned); symbolic ones are decided at the end of the
         path by a fresh solver.  `exempt`: a condition (known-finding region)
         under which the obligation is not required."""
-        self.obligations += 1
+        self.p_obl += 1
         if isinstance(cond, (bool, _np.bool_)):
             if cond:
-                self.discharged += 1
-                self.trivial += 1
+                self.p_dis += 1
+                self.p_triv += 1
                 return True
             self.pending.append(Obligation(tag, z3.BoolVal(False), None))
             return False
@@ -638,7 +656,15 @@ class Engine(object):
             out[name] = _val_to_fraction(val)
         return out
 
+    def _cex_wanted(self, tag):
+        n = self.cex_per_tag.get(tag, 0)
+        self.cex_per_tag[tag] = n + 1
+        return n < 4
+
     def _record_cex(self, tag, model, known=None):
+        if known is None and self.cex_per_tag.get(tag, 0) > 4:
+            self.cex_overflow = getattr(self, "cex_overflow", 0) + 1
+            return
         if len(self.cex) < 400:
             self.cex.append(dict(tag=tag, inputs={k: str(v) for k, v in
                                                   self._inputs_of(model).items()},
@@ -668,6 +694,9 @@ class Engine(object):
     def _decide_pending(self):
         pend = self.pending
         self.pending = []
+        self.obligations += self.p_obl
+        self.discharged += self.p_dis
+        self.trivial += self.p_triv
         if not pend:
             return
         t0 = time.time()
@@ -724,7 +753,8 @@ class Engine(object):
             if r == z3.unsat:
                 self.discharged += 1
             elif r == z3.sat:
-                nm = self._nice_model(n)
+                self.failed_obligations += 1
+                nm = self._nice_model(n) if self._cex_wanted(ob.tag) else None
                 self._record_cex(ob.tag, nm if nm is not None else m)
             else:
                 self.unknown.append(dict(tag=ob.tag, trace=len(self.trace)))
@@ -765,22 +795,26 @@ class Engine(object):
     def explore(self, fn, prefixes=None):
         """run fn(self) over all feasible paths (optionally only those that
         start with one of the given decision prefixes)"""
-        self.work = [list(p) for p in prefixes] if prefixes else [[]]
+        self.work = [(list(p), 0) for p in prefixes] if prefixes else [([], 0)]
+        if prefixes:
+            self.split_forks = None
         while self.work:
             if self.max_paths is not None and self.paths >= self.max_paths:
                 self.truncated = True
                 break
             if self.max_cex is not None and len(self.cex) >= self.max_cex:
                 break
-            pfx = self.work.pop()
+            pfx, nf = self.work.pop()
             self._reset_path()
             self.prefix = pfx
+            self.nforks = nf
             self.solver.push()
             try:
                 try:
                     fn(self)
                 except PathAbort:
                     self.aborted += 1
+                    self.pending = []
                     continue
                 except Inconclusive as e:
                     self.unknown.append(dict(tag="branch:" + str(e)[:80],
@@ -864,6 +898,7 @@ class Engine(object):
                     decisions=self.decisions, obligations=self.obligations,
                     discharged=self.discharged, trivial=self.trivial,
                     unknown=len(self.unknown), cex=len(self.cex),
+                    failed_obligations=self.failed_obligations, shards=len(self.shards),
                     feas_queries=self.nq, feas_s=round(self.tq, 3),
                     obl_queries=self.nobl_q, obl_s=round(self.tobl, 3),
                     divzero_forks=self.divzero, exceptions=self.exceptions,
